@@ -474,6 +474,12 @@ def run(ctx, chk, tier="quick"):
             others = [maflow.cfg.stmt_of.get(d) for d in rd if d != bnode]
             for st_ in others:
                 v_ = getattr(st_, "value", None)
+                if isinstance(st_, ast.Assign) and len(st_.targets) == 1 and isinstance(st_.targets[0], (ast.Tuple, ast.List)) and isinstance(v_, (ast.Tuple, ast.List)) \
+                        and len(v_.elts) == len(st_.targets[0].elts):
+                    # (epoch, zeta, rain) = (epoch[w], zeta[w], rain[w]): the element bound to this name
+                    for t__, e__ in zip(st_.targets[0].elts, v_.elts):
+                        if isinstance(t__, ast.Name) and t__.id == a_.id:
+                            v_ = e__
                 cut = isinstance(st_, ast.Assign) and isinstance(v_, ast.Subscript) and isinstance(v_.value, ast.Name) and v_.value.id == a_.id
                 if cut:
                     chk.ob("C03.O1", False, where_of(mas, st_), "%s is cut down before the runs are computed: %s" % (a_.id, ast.unparse(st_)[:70]),
